@@ -6,7 +6,7 @@
    Definitions only; proofs are in Proofs/C14*.v.  The model follows the code as it is after
    the repair of D21 (a note is clipped only by a strike of its pitch at or after its release). *)
 From PV Require Import Lib.Base Lib.Round Model.C12.
-From Coq Require Import QArith Qminmax.
+From Coq Require Import QArith Qminmax Qabs.
 #[local] Open Scope Q_scope.
 
 Record note := mkNote { n_pitch : Z; n_vel : Z; n_on : Q; n_off : Q }.
@@ -201,6 +201,31 @@ Definition oqlist_eqb (a b : option (list Q)) : bool :=
   | _, _ => false
   end.
 
+(* The closing moment: when the pedal is still down after the last pedal event the code ends
+   the note at max(last pedal time, last release) + 1 s.  The property does not say when such a
+   note ends (there is no later moment with the pedal up and no later strike), so the
+   correspondence asks of the implementation only observed >= release wherever the model's
+   value is the closing moment; everywhere else the values must be equal.  (The closing moment
+   is later than every pedal event, every onset and every release, so the model's value is the
+   closing moment exactly when no candidate moment exists.) *)
+Definition closing_time (ns : list note) (cs : list ctrl) : Q :=
+  let offs := map n_off ns in
+  Qmax (c_time (last (sorted_pedal cs) (mkCtrl 0 0 0)) + 1) (qmax_list (hd 0 offs) offs + 1).
+Definition has_pedal (cs : list ctrl) : bool := match pedal_events cs with [] => false | _ => true end.
+Definition end_ok (hp : bool) (ct : Q) (n : note) (m o : Q) : bool :=
+  Qeq_bool m o || (hp && Qeq_bool m ct && Qle_bool (n_off n) o).
+Fixpoint col_ok_from (hp : bool) (ct : Q) (rest : list note) (ms os : list Q) : bool :=
+  match rest, ms, os with
+  | [], [], [] => true
+  | n :: r, m :: ms', o :: os' => end_ok hp ct n m o && col_ok_from hp ct r ms' os'
+  | _, _, _ => false
+  end.
+(* [ms] the model's column for notes [ns] under controls [cs], [os] the observed one *)
+Definition col_ok (ns : list note) (cs : list ctrl) (ms os : list Q) : bool :=
+  let hp := has_pedal cs in
+  let ct := closing_time ns cs in
+  col_ok_from hp ct ns ms os.
+
 (* construction followed by a sequence of threshold assignments; observed: the sound_off column
    after construction (None = raised) and after every assignment *)
 Fixpoint history (p : part) (thrs : list Z) : list (list Q) :=
@@ -210,30 +235,47 @@ Fixpoint history (p : part) (thrs : list Z) : list (list Q) :=
   end.
 Definition check_history (c : Z * list note * list ctrl * list Z * option (list Q) * list (list Q)) : bool :=
   let '(thr, ns, cs, thrs, obs0, obs) := c in
-  oqlist_eqb (construct thr ns cs) obs0 &&
-  match obs0 with
-  | Some _ => list_eqb qlist_eqb (history (new_part thr ns cs) thrs) obs
-  | None => true
+  match construct thr ns cs, obs0 with
+  | Some m, Some o => col_ok ns cs m o && forall2b (col_ok ns cs) (history (new_part thr ns cs) thrs) obs
+  | None, None => true
+  | _, _ => false
   end.
 
 (* construction from notes carrying sound_off values, followed by a history of steps; observed
    after construction and after every step: the (note_off column, sound_off column) of the part *)
-Fixpoint trace (p : part) (ss : list step) : list (list Q * list Q) :=
+Fixpoint trace (p : part) (ss : list step) : list part :=
   match ss with
   | [] => []
-  | s :: r => let p' := apply_step p s in (map n_off (p_notes p'), p_so p') :: trace p' r
+  | s :: r => let p' := apply_step p s in p' :: trace p' r
   end.
-Definition colpair_eqb (a b : list Q * list Q) : bool := qlist_eqb (fst a) (fst b) && qlist_eqb (snd a) (snd b).
+Definition state_ok (p : part) (o : list Q * list Q) : bool :=
+  qlist_eqb (map n_off (p_notes p)) (fst o) && col_ok (p_notes p) (p_ctrls p) (p_so p) (snd o).
 Definition check_steps (c : Z * list note * list Q * list ctrl * list step * list (list Q * list Q)) : bool :=
   let '(thr, ns, so0, cs, ss, obs) := c in
   let p := new_part_carrying thr ns so0 cs in
   forallb valid_note ns &&
   forallb (fun x => Qle_bool (n_off (fst x)) (snd x)) (combine ns so0) &&
-  list_eqb colpair_eqb ((map n_off (p_notes p), p_so p) :: trace p ss) obs.
+  forall2b state_ok (p :: trace p ss) obs.
 
 (* note_array: exact columns pitch, velocity, onset tick; duration tick only for notes that no
    pedal extends; the seconds columns are float32 in the implementation and compared in Python *)
+(* what the property asks of the tick columns: the onset tick is the tick nearest to the onset
+   in seconds (|.| <= 1/2), the duration in ticks is within one tick of the duration in seconds
+   (two roundings) when no pedal extends the note; 1/1000 tick is allowed for the float evaluation *)
+Definition tick_near (ppq mpq : Z) (t : Q) (k : Z) (tol : Q) : bool :=
+  Qle_bool (Qabs (inject_Z (1000000 * ppq) * t / inject_Z mpq - inject_Z k)) tol.
 Definition check_note_array (c : Z * Z * Z * list note * list ctrl * list (Z * Z * Z * option Z)) : bool :=
+  let '(ppq, mpq, thr, ns, cs, obs) := c in
+  forall2b (fun (n : note) (o : Z * Z * Z * option Z) =>
+              let '(pi, ve, ot, dt) := o in
+              (n_pitch n =? pi)%Z && (n_vel n =? ve)%Z && tick_near ppq mpq (n_on n) ot ((1 # 2) + (1 # 1000)) &&
+              match dt with
+              | Some d => tick_near ppq mpq (n_off n - n_on n) d (1 + (1 # 1000))
+              | None => true
+              end) ns obs.
+(* the same rows against the model's own formulas (round-half-even of the onset; tick(release) -
+   tick(onset)): counted in the evidence, not required *)
+Definition check_note_array_exact (c : Z * Z * Z * list note * list ctrl * list (Z * Z * Z * option Z)) : bool :=
   let '(ppq, mpq, thr, ns, cs, obs) := c in
   let p := new_part thr ns cs in
   forall2b (fun (r : narow * (note * Q)) (o : Z * Z * Z * option Z) =>
@@ -247,10 +289,9 @@ Definition check_note_array (c : Z * Z * Z * list note * list ctrl * list (Z * Z
            (combine (note_array ppq mpq p) (combine (p_notes p) (p_so p))) obs.
 
 (* track renumbering: the implementation's new numbers induce the same partition of the
-   (part, track) pairs as the model's, and are exactly 0 .. n-1 *)
+   (part, track) pairs as the model's: two events get one number exactly when they are of the
+   same part and had one number before (which numbers are used is not prescribed) *)
 Definition check_tracks (c : list ((Z * Z) * Z)) : bool :=
   let pairs := map fst c in
-  let n := Z.of_nat (List.length (track_ids pairs)) in
   forallb (fun x => forallb (fun y =>
-      Bool.eqb (zopt_eqb (track_map pairs (fst x)) (track_map pairs (fst y))) (snd x =? snd y)%Z) c) c
-  && forallb (fun x => (0 <=? snd x)%Z && (snd x <? n)%Z) c.
+      Bool.eqb (zopt_eqb (track_map pairs (fst x)) (track_map pairs (fst y))) (snd x =? snd y)%Z) c) c.
